@@ -3,7 +3,7 @@ import ShpanVerif.Model.Align
 /-
 Driver handler for C13.
   case := "<period> <ty> reloc=<k> x=<0|1> | <unixNanos>:<cell> ..."      (see harness/run/c13.go)
-  obs  := "A=<res> U=<res> D=<res> R=<res>"
+  obs  := "A=<res> U=<res> D=<res> R=<res> R3=<res>"
 Model side: the four aligner models over `floatArith` (IEEE binary64), timestamps carrying the location ids
 the harness used (`reloc`); the model never reads them.
 Spec side (`specOk`): the property's clauses evaluated on each observed result with list-level definitions that
@@ -77,6 +77,17 @@ def modelD (c : Case) : Res :=
 
 def modelR (c : Case) : Res :=
   match alignRows FA [dtOf c.ty] c.P (recsOf c (fun v => [v])) with
+  | .error e => errStr e
+  | .ok l => .ok (l.map (fun r => (r.ts.inst, r.val)))
+
+/-- three-field rows `[constant of the declared type, the value, a ramp of the other numeric type]` (mirrors `R3` in c13.go) -/
+def rows3 (c : Case) : List (Rec (List FCell)) :=
+  (c.pts.zip (List.range c.pts.length)).map (fun ((t, v), i) =>
+    ⟨⟨t, locOf c.reloc i⟩,
+     if c.ty == 'i' then [Cell.int 7, v, Cell.flt (Float.ofNat i * 0.5)] else [Cell.flt 7.5, v, Cell.int (3 * (i : Int))]⟩)
+
+def modelR3 (c : Case) : Res :=
+  match alignRows FA [dtOf c.ty, dtOf c.ty, dtOf (if c.ty == 'i' then 'f' else 'i')] c.P (rows3 c) with
   | .error e => errStr e
   | .ok l => .ok (l.map (fun r => (r.ts.inst, r.val)))
 
@@ -158,31 +169,46 @@ def sortedPts (pts : List (Int × FCell)) : Bool :=
   | [_] => true
   | a :: b :: l => a.1 ≤ b.1 && sortedPts (b :: l)
 
-def parseObs (obs : String) : Option (Res × Res × Res × Res) :=
+def parseObs (obs : String) : Option (Res × Res × Res × Res × Res) :=
   match words obs with
-  | [a, u, d, r] => do
+  | [a, u, d, r, r3] => do
     let a ← (kv a "A").bind parseRes
     let u ← (kv u "U").bind parseRes
     let d ← (kv d "D").bind parseRes
     let r ← (kv r "R").bind parseRes
-    pure (a, u, d, r)
+    let r3 ← (kv r3 "R3").bind parseRes
+    pure (a, u, d, r, r3)
   | _ => none
+
+/-- the three-field report: its middle field obeys the clauses like a one-field report; the constant field stays the
+    constant and the ramp field is never missing -/
+def checkR3 (c : Case) (r3 : Res) : Option String :=
+  match r3 with
+  | .ok out =>
+    let k : FCell := if c.ty == 'i' then .int 7 else .flt 7.5
+    if !(out.all (fun (_, row) => row.length == 3)) then some "report.AlignerFilter(3 fields): a row has not three cells"
+    else if !(out.all (fun (_, row) => match row with | [a, _, _] => cellEq a k | _ => false)) then
+      some "report.AlignerFilter(3 fields): the constant field changed"
+    else if !(out.all (fun (_, row) => match row with | [_, _, .other _] => false | [_, _, _] => true | _ => false)) then
+      some "report.AlignerFilter(3 fields): the third field lost its value"
+    else checkRes c "report.AlignerFilter(3 fields, middle)" false (.ok (out.map (fun (t, row) => (t, (row.drop 1).take 1))))
+  | r => checkRes c "report.AlignerFilter(3 fields)" false r
 
 /-- returns (model output, spec verdict on the observation, reason) -/
 def handle (cs obs : String) : String × Bool × String :=
   match parseCase cs with
   | none => ("bad-case", false, "unparsable case")
   | some c =>
-    let model := s!"A={fmtRes (modelA c)} U={fmtRes (modelU c)} D={fmtRes (modelD c)} R={fmtRes (modelR c)}"
+    let model := s!"A={fmtRes (modelA c)} U={fmtRes (modelU c)} D={fmtRes (modelD c)} R={fmtRes (modelR c)} R3={fmtRes (modelR3 c)}"
     let inScope := sortedPts c.pts && c.pts.all (fun p => isKind c.ty p.2)
     if !inScope then (model, true, "")
     else
       match parseObs obs with
       | none => (model, false, "unparsable observation")
-      | some (a, u, d, r) =>
+      | some (a, u, d, r, r3) =>
         let a := (match a with | .na => Res.err "missing" | x => x)
         match [checkRes c "AlignStream" false a, checkRes c "AlignStreamUntyped" true u,
-               checkRes c "datasource.AlignerFilter" false d, checkRes c "report.AlignerFilter" false r].filterMap id with
+               checkRes c "datasource.AlignerFilter" false d, checkRes c "report.AlignerFilter" false r, checkR3 c r3].filterMap id with
         | [] => (model, true, "")
         | e :: _ => (model, false, e)
 
